@@ -7,8 +7,9 @@ SrpcTable  — the size rules of srpc_getdata() for the device configuration, re
   numbers    : a C probe prints sizeof/offsetof/maxima of every type named by the rules.
   rows (list Z):  [id; 0]                                              call without data
                   [id; 1; alloc; n; s1..sn; k; c1..ck]                   exact sizes s*, sizes c* accepted without copy
-                  [id; 2; alloc; hdr; item; max; zr; nf; (off; width; signed)*nf]
-                                                                         header + declared*item, declared = sum of nf fields,
+                  [id; 2; alloc; sizeT; hdr; item; max; zr; nf; (off; width; signed)*nf]
+                                                                         hdr <= size <= sizeT and declared*item == size - hdr,
+                                                                         declared = sum of nf fields, alloc = allocated bytes,
                                                                          zr=1: FALSE is returned first when field 1 reads 0
   DISPATCH_DEV / DISPATCH_DEVCFG : call ids that supla_esp_on_remote_call_received dispatches on
                (same mechanism on supla_esp_devconn.c, without / with RETREIVE_CHANNEL_CONFIG).
@@ -181,8 +182,8 @@ def _build_table():
             row(fmt, *a)
         else:
             T, I, M = r['T'], r['item'], r['max']
-            a = ['sizeof(%s)' % r['alloc'], '(size_t)(sizeof(%s) - sizeof(%s) * %s)' % (T, I, M), 'sizeof(%s)' % I, M]
-            fmt = '%d 2 %%lld %%lld %%lld %%lld %d %d' % (cid, r['zr'], len(r['fields']))
+            a = ['sizeof(%s)' % r['alloc'], 'sizeof(%s)' % T, '(size_t)(sizeof(%s) - sizeof(%s) * %s)' % (T, I, M), 'sizeof(%s)' % I, M]
+            fmt = '%d 2 %%lld %%lld %%lld %%lld %%lld %d %d' % (cid, r['zr'], len(r['fields']))
             for f in r['fields']:
                 a += ['offsetof(%s, %s)' % (T, f), 'sizeof(((%s *)0)->%s)' % (T, f), '((__typeof__(((%s *)0)->%s))-1) < 0' % (T, f)]
                 fmt += ' %lld %lld %lld'
